@@ -595,8 +595,7 @@ func cloneAliasesNotWrittenThrough(c *core.Ctx) {
 	c.Stat("clone_aliased_refs", len(idxs))
 }
 
-// isVMConstruction: a function that allocates the VM it writes (constructors)
-// or an option closure (func(*VirtualMachine) applied by the constructor).
+// isVMConstruction: a function that allocates the VM it writes (constructors).
 func isVMConstruction(fn *ssa.Function, vmT *types.Named) bool {
 	for _, b := range fn.Blocks {
 		for _, in := range b.Instrs {
@@ -607,10 +606,8 @@ func isVMConstruction(fn *ssa.Function, vmT *types.Named) bool {
 			}
 		}
 	}
-	if fn.Parent() != nil && fn.Signature.Recv() == nil && fn.Signature.Params().Len() == 1 && fn.Signature.Results().Len() == 0 &&
-		core.NamedOf(fn.Signature.Params().At(0).Type()) == vmT && strings.HasPrefix(fn.Parent().Name(), "With") {
-		return true
-	}
+	// Option closures are NOT construction time: RunCode applies options to a VM that exists already
+	// (also to a clone, and to the original while clones run)
 	return false
 }
 
